@@ -801,3 +801,22 @@ val gen_qr : val0 option list -> val0 -> val0 option
 val gen_aec : val0 option list -> (val0 * n) -> val0 option
 
 val gen_mm : val0 option list -> val0 -> val0 option
+
+type xop =
+| XQr of val0 option list * val0 option
+| XAec of val0 option list * val0 option
+| XMm of val0 option list * val0 option
+| XWb
+| XRot of bool
+| XAddBp of val0
+| XSetBp of n
+
+val xstep : exporter -> xop -> exporter * n
+
+val xrun : exporter -> xop list -> exporter
+
+val tbs_of_tables : tables -> val0 option list
+
+val tables_of_tbs : val0 option list -> tables
+
+val blk_of_rb : rblock -> blk
